@@ -28,6 +28,11 @@ Reason(r) ==
             ELSE IF r.res \notin {"ok", "soft"} THEN "soft-failure-reported-as-" \o r.res
             ELSE IF (r.res = "ok") # ok THEN (IF ok THEN "admissible-rejected" ELSE "inadmissible-accepted")
             ELSE "ok"
+    \* C10: a third party (no keys) changed the bytes of a valid signed object: it must not be accepted in the same role
+    [] r.fn = "malleate" -> IF r.panic THEN "panic" ELSE IF r.accepted /\ r.changed THEN "changed-object-accepted"
+                            ELSE IF ~r.changed /\ ~r.accepted /\ r.how = "none" THEN "unchanged-object-refused" ELSE "ok"
+    \* C10: only low-s signatures with a recovery id below 4 are ever produced
+    [] r.fn = "produced" -> IF r.lowS /\ r.recid >= 0 /\ r.recid < 4 THEN "ok" ELSE "non-canonical-signature-produced"
     [] r.fn = "create" -> CreateVerdict(r)
     [] r.fn = "sign" -> SignVerdict(r)
     [] OTHER -> "unknown-record"
